@@ -389,7 +389,7 @@ def run(ctx):
         "rule": "random histories of draw/mark (incl. out-of-range, inverted), multi-rectangle copy regions in all directions with repeated/different offsets, incremental/non-incremental requests (incl. degenerate and out-of-range), SetEncodings toggling CopyRect, updates, for 1..3 clients, progressive slicing and maxRectsPerUpdate on/off; non-trivial = distinct script in which at least one update carried CopyRect rectangles",
         "samples": samples, "distribution": dist, "failures": fails[:6],
         "partial": ["soft-cursor clients: region state, emitted rectangles and their picture (framebuffer with the scripted all-set white cursor painted at the pointer) are compared; arbitrary cursor shapes / masks are C15's subject",
-                    "pointer moves change only the `extra` pixels of Step.send; the all-histories theorem (model_converges) is stated per fixed pointer position",
+                    "the theorems speak about the cursor-less picture: model_converges_env covers pointer moves / cursor and knob changes between operations, the painted soft cursor itself is compared by the run (overlay oracle) and belongs to C15",
                     "scaled clients are covered by C17",
                     "encodings other than Raw/CopyRect: the scheduling is encoding independent (region arithmetic precedes encoding); pixel exactness per encoding is C01"],
         "assumptions": ["the application reports every change (draw is always followed by mark of the same rectangle; copies use rfbDoCopyRegion)",
